@@ -252,6 +252,10 @@ func (fx *fexec) applyContractSig(c *Contract, sig *types.Signature, vars map[st
 	for _, e := range c.Ensures {
 		vc.assume(st, post.evalBool(e.X))
 	}
+	for _, e := range c.Assumed {
+		vc.note("ASSUMED (unproved) postcondition of " + c.Name + ": " + e.Src)
+		vc.assume(st, post.evalBool(e.X))
+	}
 	switch len(res) {
 	case 0:
 		return Val{Ty: sig.Results()}
@@ -271,6 +275,18 @@ func (vc *VC) freshAlloc(old Term) Term {
 func (fx *fexec) havocLocation(sc *SpecCtx, x *SX, st *State) {
 	vc := fx.vc
 	switch x.K {
+	case "cell":
+		// cell(p): the cell a pointer to a non-struct value points to
+		l := vc.locOfPtr(sc.eval(x.Args[0]))
+		v := vc.fresh("havoc_cell", vc.sortOf(l.Ty))
+		vc.assert(vc.typeInv(v, l.Ty, Term{}))
+		vc.storeLoc(st, l, v)
+	case "allfield":
+		// `all T.f`: the whole field component is havocked; the callee's ensures say
+		// which objects keep their value
+		sty, fi := sc.structField(x)
+		comp, srt := vc.fieldComp(sty, fi)
+		vc.heapSet(st, comp, vc.fresh("havoc_"+x.Op, srt))
 	case "ghost":
 		g := vc.eng.contracts.Ghosts[x.Op]
 		if g == nil {
